@@ -36,6 +36,29 @@ func run(c *hlib.Ctx) {
 		runChain2(c, g, 1+c.Rng.Intn(2), []int{1, 1})
 		arcEps = 0
 	}
+	// several blur rates in one call, on inputs where every float operation is exact: Blur on meshes
+	// whose valences are powers of two, BlurFiltered (symmetric filter) on every dyadic generator
+	for i := 0; i < 20+c.N/10; i++ {
+		if i%2 == 0 {
+			chain3With(c, pow2Mesh(c), 10)
+		} else {
+			g := pickGen3(c)
+			for tries := 0; !g.exact && tries < 20; tries++ {
+				g = pickGen3(c)
+			}
+			chain3With(c, g, 16)
+		}
+	}
+	// sequential ARAP deformer with changing handle sets
+	for i := 0; i < 12+c.N/15; i++ {
+		g := pickGen3(c)
+		for tries := 0; (g.m.NumTriangles() > 236 || strings.HasPrefix(g.label, "multi")) && tries < 20; tries++ {
+			g = pickGen3(c)
+		}
+		forceSeq = true
+		chain3With(c, g, 13)
+		forceSeq = false
+	}
 	n3 := c.N * 2 / 3
 	for i := 0; i < n3; i++ {
 		chain3(c)
@@ -102,9 +125,31 @@ func chain3With(c *hlib.Ctx, g mesh3, firstOp int) {
 			emitLine(c, append(head, "O", r.status, "K 0", st.ids.coordSection(usedIDs3(st.soup)))...)
 			return
 		}
+		if r.kind == "arap3" {
+			line, out := arapLine(c, st, r.params, r.cons, r.out)
+			emitLine(c, line...)
+			if len(usedIDs3(out)) != len(usedIDs3(st.soup)) {
+				return
+			}
+			if r.out.NeedsRepair() || len(r.out.SingularVertices()) > 0 {
+				c.Stat("chain-ended-on-broken-output:"+r.kind, 1)
+				return
+			}
+			if tooSmall3(r.out) || folded3(r.out) || (r.out.NumTriangles() <= 400 && r.out.SelfIntersections() > 0) {
+				c.Stat("chain-ended-numerically-collapsed:"+r.kind, 1)
+				return
+			}
+			st.soup, st.exact, st.flat = out, false, false
+			continue
+		}
 		out := st.ids.soup(r.out)
-		moveOnly := r.kind == "blur3" || r.kind == "smooth3" || r.kind == "arap3" || r.kind == "flatten3"
-		if r.kind == "loop3" && r.coords && len(usedIDs3(out)) < len(usedIDs3(st.soup))+numEdges3(st.soup) {
+		moveOnly := r.kind == "blur3" || r.kind == "blurf3" || r.kind == "smooth3" || r.kind == "flatten3"
+		loopVerts := len(usedIDs3(st.soup)) + numEdges3(st.soup)
+		if r.kind == "loop3" && strings.Contains(strings.Join(r.params, " "), "iters=2") {
+			// (V, E, F) -> (V+E, 2E+3F, 4F), twice
+			loopVerts += 2*numEdges3(st.soup) + 3*len(st.soup)
+		}
+		if r.kind == "loop3" && r.coords && len(usedIDs3(out)) < loopVerts {
 			// the published masks put two new vertices on the same point (exact arithmetic, checked by
 			// the model): the placement is not injective on this input - a hypothesis, not the code
 			c.Stat("hypothesis-failed(loop-placement-not-injective):loop3", 1)
